@@ -10,6 +10,7 @@ CONSTANTS
   PPInterval = 2
   TestMode = FALSE
   FaultKinds <- NoFaults
+  MaxTimed = 2
   MaxEternal = 2
 VIEW view
 INVARIANT TypeOK
